@@ -56,6 +56,8 @@ def setGlobAttr (g : Glob) (k v : String) : Option Glob :=
   | "hostrep" => if v == "full" then some { g with hostFull := true } else if v == "copied" then some { g with hostFull := false } else none
   | "hwid" => (parseHex v).bind (fun m => if m.length > 255 then none else some { g with hwid := m })
   | "icon" => if v == "none" then some { g with icon := none } else (parseBlob v).map (fun m => { g with icon := some m })
+  | "sendok" => if v == "len" || v == "zero" then some g else none          -- what a successful transmit returns (never negative): accepted all the same
+  | "mtuclobber" => (parseDec v).bind (fun n => if n > 65535 then none else some g)    -- what a FAILING MTU query leaves in its output: the fallback is used all the same
   | "failrc" => (parseInt v).bind (fun i => if i = 0 ∨ i < -1000 ∨ i > 1000 then none else some g)     -- which non-zero code a failing getter returns: failure all the same
   | "emptyrep" => if v == "block" then some { g with emptyBlock := true } else if v == "null" then some { g with emptyBlock := false } else none
   | "fname" => if v == "none" then some { g with fname := none } else (parseBlob v).map (fun m => { g with fname := some m })
